@@ -6,6 +6,13 @@ VERIF = os.path.dirname(os.path.dirname(os.path.abspath(__file__)))
 
 # id -> (category, technique, text, note)
 CLAIMS = {
+    'C06': ('other',
+            'static analysis: operator vocabulary of the lifter (from E4 templates, with arities) cross-checked against the evaluator dispatch table and each evaluator\'s operand subscripts; always-raising-construct lint with a small fixed-width-integer type inference; template of the cast/lookup code',
+            'Every operator string the lifter builds either has a constant evaluator reading no more operands than the lifter passes, or is kept symbolic by the membership '
+            'guard in eval_ExprOp; evaluators of the flattenable operators fold over all operands; no evaluation method contains a construct that raises on every '
+            'execution; results are cast to the first operand\'s type and identifiers are looked up exactly in the pool.',
+            'Not decided: numeric correctness of each evaluator, Cond/Compose/Slice folding on concrete values. 34 known findings: integer operators without evaluator (mul/div '
+            'families, rcr), bsf/bsr arity, true division on moduint, raise of strings, mpool.items/keys.'),
     'C08': ('other',
             'static analysis: read/write-set inference over the lifter\'s IR templates (E4) with get_r(mem_read) semantics, compared with an architecture effects table',
             'For every live decoder variant x operand form of the mnemonics in ref/ia32_effects.ref (integer core + x87/SSE instructions with implicit flag/register effects) the '
